@@ -53,3 +53,14 @@ func TestNtorAgree(t *testing.T) {
 		t.Fatal("ntor mismatch")
 	}
 }
+
+func TestDrbgIncrementalEqualsOneShot(t *testing.T) {
+	seed := make([]byte, 24)
+	rand.Read(seed)
+	a, b := NewDrbg(seed), NewDrbgSlow(seed)
+	for i := 0; i < 300; i++ {
+		if a.NextBlock() != b.NextBlock() {
+			t.Fatalf("block %d differs", i)
+		}
+	}
+}
